@@ -3813,3 +3813,138 @@ func E9CurveParameterDomain(c *core.Ctx, r *core.Report) {
 	r.Count("E9.curve-parameter-domain", n)
 	r.Floor("E9.curve-parameter-domain", 4)
 }
+
+// E9PendingNotOverwritten: a remembered end-point hit is paired before it is replaced.
+func E9PendingNotOverwritten(c *core.Ctx, r *core.Report) {
+	r.Rule("E9.pending-not-overwritten", "windings and Path.Crossings remember a hit at the end of a segment in a pointer declared outside the loop over the hits, until the hit on the adjoining segment arrives. Every assignment to that pointer inside the loop is made either where the pointer is known to be nil (directly under a condition `prev == nil`, alone or as a conjunct) or after the pending hit has been paired (a comparison of its Into() precedes the assignment in the same block). Replacing a pending hit on any other condition — e.g. because the new hit lies at another position, which is the case after an edge that runs along the ray — drops a crossing")
+	p := c.MustPkg("")
+	info := p.TypesInfo
+	n := 0
+	for _, fname := range []string{"windings", "Path.Crossings"} {
+		fd := core.MustFuncDecl(p, fname)
+		// pointers to Intersection declared by `var x *Intersection`
+		pend := map[types.Object]bool{}
+		ast.Inspect(fd.Body, func(m ast.Node) bool {
+			if ds, ok := m.(*ast.DeclStmt); ok {
+				if gd, ok := ds.Decl.(*ast.GenDecl); ok && gd.Tok == token.VAR {
+					for _, sp := range gd.Specs {
+						for _, nm := range sp.(*ast.ValueSpec).Names {
+							if o := info.Defs[nm]; o != nil {
+								if pt, ok := o.Type().(*types.Pointer); ok {
+									if nt, ok := pt.Elem().(*types.Named); ok && nt.Obj().Name() == "Intersection" {
+										pend[o] = true
+									}
+								}
+							}
+						}
+					}
+				}
+			}
+			return true
+		})
+		isPend := func(e ast.Expr) types.Object {
+			if id, ok := core.Unparen(e).(*ast.Ident); ok && pend[core.ObjOf(info, id)] {
+				return core.ObjOf(info, id)
+			}
+			return nil
+		}
+		// knownNil: cond is `x == nil` or a conjunction containing it
+		var knownNil func(e ast.Expr, o types.Object) bool
+		knownNil = func(e ast.Expr, o types.Object) bool {
+			be, ok := core.Unparen(e).(*ast.BinaryExpr)
+			if !ok {
+				return false
+			}
+			switch be.Op {
+			case token.LAND:
+				return knownNil(be.X, o) || knownNil(be.Y, o)
+			case token.EQL:
+				isNil := func(x ast.Expr) bool {
+					id, ok := core.Unparen(x).(*ast.Ident)
+					return ok && id.Name == "nil"
+				}
+				return (isPend(be.X) == o && isNil(be.Y)) || (isPend(be.Y) == o && isNil(be.X))
+			}
+			return false
+		}
+		usesInto := func(nd ast.Node, o types.Object) bool {
+			found := false
+			ast.Inspect(nd, func(k ast.Node) bool {
+				if call, ok := k.(*ast.CallExpr); ok {
+					if se, ok := call.Fun.(*ast.SelectorExpr); ok && se.Sel.Name == "Into" && isPend(se.X) == o {
+						found = true
+					}
+				}
+				return true
+			})
+			return found
+		}
+		var visit func(list []ast.Stmt, nilKnown map[types.Object]bool, inLoop bool)
+		visit = func(list []ast.Stmt, nilKnown map[types.Object]bool, inLoop bool) {
+			paired := map[types.Object]bool{}
+			for _, st := range list {
+				switch x := st.(type) {
+				case *ast.AssignStmt:
+					for _, l := range x.Lhs {
+						o := isPend(l)
+						if o == nil || !inLoop {
+							continue
+						}
+						n++
+						key := fmt.Sprintf("canvas.%s|assignment #%d to the pending hit", fname, n)
+						if nilKnown[o] || paired[o] {
+							r.OK("E9.pending-not-overwritten", key, c.Pos(x.Pos()), "")
+						} else {
+							r.Fail("E9.pending-not-overwritten", key, c.Pos(x.Pos()), fmt.Sprintf("`%s` replaces the pending end-point hit where it is not known to be nil and has not been paired: the crossing it stood for is never counted (a contour with a horizontal edge on the ray whose neighbours go the same way: `M0 0L10 0L10 5L15 5L15 10L0 10z` at (5,5))", c.Src(x)))
+						}
+					}
+				case *ast.IfStmt:
+					for o := range pend {
+						if usesInto(x.Cond, o) {
+							paired[o] = true
+						}
+					}
+					nk := map[types.Object]bool{}
+					for o := range nilKnown {
+						nk[o] = true
+					}
+					for o := range pend {
+						if knownNil(x.Cond, o) {
+							nk[o] = true
+						}
+					}
+					visit(x.Body.List, nk, inLoop)
+					switch e := x.Else.(type) {
+					case *ast.BlockStmt:
+						visit(e.List, nilKnown, inLoop)
+					case *ast.IfStmt:
+						visit([]ast.Stmt{e}, nilKnown, inLoop)
+					}
+				case *ast.RangeStmt:
+					visit(x.Body.List, nilKnown, true)
+				case *ast.ForStmt:
+					visit(x.Body.List, nilKnown, true)
+				case *ast.BlockStmt:
+					visit(x.List, nilKnown, inLoop)
+				}
+			}
+		}
+		// the loop that matters is the innermost one over the hits: assignments in an outer loop (the
+		// declaration's own block) reset the pointer per sub-path and are not inside the hit loop
+		ast.Inspect(fd.Body, func(m ast.Node) bool {
+			rs, ok := m.(*ast.RangeStmt)
+			if !ok {
+				return true
+			}
+			if s, ok := info.TypeOf(rs.X).Underlying().(*types.Slice); ok {
+				if nt, ok := s.Elem().(*types.Named); ok && nt.Obj().Name() == "Intersection" {
+					visit(rs.Body.List, map[types.Object]bool{}, true)
+					return false
+				}
+			}
+			return true
+		})
+	}
+	r.Count("E9.pending-assignments", n)
+	r.Floor("E9.pending-assignments", 4)
+}
